@@ -768,6 +768,25 @@ func (w *w1World) checkClientLog(cl *w1SimClient) {
 	if w.prop == "C36" {
 		w.checkLiveness(cl)
 	}
+	// ---- C11, dictionary encoder discipline
+	if d := cl.tr.dict; d != nil {
+		s.Probe("c11_encoder_checked")
+		if d.closeDuring {
+			s.Violate("C11", "encoder-closed-during-use", "dictionary encoder closed while an Encode or a transport write was in progress"+w.rnq(), "client %d: CloseDictionaryCompression ran concurrently with a write (%d Encode calls so far)", cl.idx, d.encodes)
+		}
+		if d.afterClose > 0 {
+			s.Violate("C11", "encoder-used-after-close", "frame written after the dictionary encoder was closed"+w.rnq(), "client %d: %d frames were written after CloseDictionaryCompression", cl.idx, d.afterClose)
+		}
+		if d.closes > 1 {
+			s.Violate("C11", "encoder-closed-twice", "dictionary encoder closed more than once", "client %d: closed %d times", cl.idx, d.closes)
+		}
+		if cl.isClosed() && d.closes == 0 {
+			s.Violate("C11", "encoder-not-closed", "dictionary encoder never closed although the connection ended", "client %d: encoder installed, connection closed, Close never called", cl.idx)
+		}
+		if d.rawFrames > 1 {
+			s.Violate("C11", "raw-frame-after-connect-reply", "more than one frame bypassed the encoder", "client %d: %d raw frames", cl.idx, d.rawFrames)
+		}
+	}
 	// ---- C09
 	w.checkCommands(cl)
 	// ---- C08
